@@ -142,3 +142,20 @@ def picky(value):
         if v == "REJECTME" or (isinstance(v, list) and "REJECTME" in v):
             raise ValueError("picky section datatype refuses this section")
     return Wrapped(value)
+
+
+class Methods:
+    """The same functions reached as bound methods: a dotted datatype name may end in a classmethod,
+    and then every look-up of the name yields a new (equal, not identical) object."""
+
+    @classmethod
+    def basickey(cls, value):
+        return basickey(value)
+
+    @classmethod
+    def wrap(cls, value):
+        return wrap(value)
+
+    @classmethod
+    def evenint(cls, value):
+        return evenint(value)
